@@ -538,7 +538,7 @@ def isa_case(sh, lines, tag, origin, rep=False):
             # mechanisms themselves are keyed precisely by the IR-level histories of part (a). Only sequences that
             # contain one of the access relations known to be mishandled are attributed to it.
             key = 'isa-alias/state-differs-after-partially-overlapping-accesses'
-        elif origin == 'isa-cond' and has_known_bad_overlap(small, (v.get('witness') or {}).get('readback')):
+        elif origin in ('isa-cond', 'isa-addr') and has_known_bad_overlap(small, (v.get('witness') or {}).get('readback')):
             key = 'isa-alias/state-differs-after-partially-overlapping-accesses'
         elif origin == 'isa-cond':
             key = '%s/%s/%s' % (origin, kind, '+'.join(sorted(set(re_suffix(l.split()[0]).rstrip('elsbagn') if l.split()[0].startswith(('cmov', 'set')) else re_suffix(l.split()[0]) for l in small))))
@@ -563,6 +563,40 @@ def ptr_cases():
                         ld = 'mov%s %d(%%esi), %s' % (sfx[w2][0], o2, sfx[w2][2])
                         ov = {'full': ['movl %ecx, (%ebx)'], 'partial': ['movb %cl, 1(%ebx)'], 'none': []}[over]
                         out.append((['movl (%ebx), %esi', st] + ov + [ld], [st, ld]))
+    return out
+
+
+def addr_cases():
+    """The same memory cell reached through addresses that are built differently: a pointer loaded from memory, adjusted, its
+    slot then overwritten, and overlapping stores of different widths through it; one sum formed from two register pairs whose
+    names sort in opposite orders; lea / add / scaled forms of one sum. Accesses never partially overlap in a way the
+    IR-level part already records as mishandled: full-width store, narrower store inside it, full-width or contained load."""
+    out = []
+    for adj in (['leal 8(%ebx), %ebx'], ['addl $8, %ebx'], ['incl %ebx'], []):
+        for over in (['movl %ecx, (%esi)'], ['movb %cl, 1(%esi)'], []):
+            for st2, ld in (('movb %dl, 5(%ebx)', 'movl 4(%ebx), %edi'), ('movw %dx, 6(%ebx)', 'movl 4(%ebx), %edi'), ('movb %dl, 4(%ebx)', 'movzbl 4(%ebx), %edi'),
+                            ('movl %edx, 4(%ebx)', 'movl 4(%ebx), %edi')):
+                out.append(['movl (%esi), %ebx'] + adj + over + ['movl %eax, 4(%ebx)', st2, ld])
+    out.append(['movl (%esi), %ebx', 'movl %ecx, (%esi)', 'movl %eax, 4(%ebx,%edi)', 'movb %dl, 5(%ebx,%edi)', 'movl 4(%ebx,%edi), %ebp'])
+    out.append(['movl 8(%esi), %ebx', 'movl (%ebx), %ebx', 'movl %ecx, 8(%esi)', 'movl %eax, (%ebx)', 'movb %dl, 1(%ebx)', 'movl (%ebx), %edi'])
+    # one address, two routes
+    for lo, hi in (('%al', '%ah'), ('%cl', '%ch'), ('%bl', '%bh')):
+        free = [r for r in ('%esi', '%edi', '%ebx', '%edx', '%eax', '%ebp') if r[2] != lo[1]]
+        p1, p2, q1, q2 = free[0], free[1], free[2], free[3]
+        mk = ['movzbl %s, %s' % (lo, p1), 'movzbl %s, %s' % (hi, p2)]
+        mk2 = ['movzbl %s, %s' % (lo, q1), 'movzbl %s, %s' % (hi, q2)]
+        out.append(mk + ['movl %%ecx, (%s,%s)' % (p1, p2)] + mk2 + ['movl (%s,%s), %%ebp' % (q1, q2)])
+        out.append(mk + ['movl %%ecx, (%s,%s)' % (p1, p2)] + mk2 + ['movl (%s,%s), %%ebp' % (q2, q1)])
+        out.append(mk + ['movl %%ecx, (%s,%s)' % (p1, p2)] + mk2 + ['movb $7, 1(%s,%s)' % (q1, q2), 'movl (%s,%s), %%ebp' % (p1, p2)])
+        out.append(mk + ['movw %%cx, 2(%s,%s)' % (p2, p1)] + mk2 + ['movw 2(%s,%s), %%bp' % (q1, q2)])
+    out.append(['leal (%eax,%ecx), %esi', 'movl %edx, (%esi)', 'movl (%eax,%ecx), %edi'])
+    out.append(['leal (%eax,%ecx), %esi', 'movl %edx, (%esi)', 'movl (%ecx,%eax), %edi'])
+    out.append(['movl %eax, %esi', 'addl %ecx, %esi', 'movl %edx, 4(%esi)', 'movb %bl, 5(%eax,%ecx)', 'movl 4(%ecx,%eax), %edi'])
+    out.append(['leal (,%eax,2), %esi', 'movl %edx, (%esi)', 'movl (%eax,%eax), %edi'])
+    out.append(['leal 4(%eax), %esi', 'movl %edx, 4(%esi)', 'movl 8(%eax), %edi'])
+    out.append(['movl %eax, %esi', 'subl $-8, %esi', 'movl %edx, (%esi)', 'movw %bx, 10(%eax)', 'movl 8(%eax), %edi'])
+    out.append(['movzwl %ax, %esi', 'movzwl %ax, %edi', 'movl %edx, (%esi)', 'movl (%edi), %ebp'])
+    out.append(['movswl %ax, %esi', 'movswl %ax, %edi', 'movl %edx, 4(%esi)', 'movb %cl, 5(%edi)', 'movl 4(%esi), %ebp'])
     return out
 
 
@@ -674,6 +708,8 @@ def shards(tier, seed):
         out.append(('constregs', i))
     for i in range(0, len(cond_cases()), 12):
         out.append(('condvals', i))
+    for i in range(0, len(addr_cases()), 8):
+        out.append(('addrs', i))
     return out
 
 
@@ -747,6 +783,9 @@ def run_shard(shard, tier, seed):
     elif kind == 'condvals':
         for j, lines in enumerate(cond_cases()[shard[1]:shard[1] + 12]):
             isa_case(sh, lines, ('cond', shard[1] + j), 'isa-cond')
+    elif kind == 'addrs':
+        for j, lines in enumerate(addr_cases()[shard[1]:shard[1] + 8]):
+            isa_case(sh, lines, ('addr', shard[1] + j), 'isa-addr')
     elif kind == 'constregs':
         for j, lines in enumerate(const_cases()[shard[1]:shard[1] + 24]):
             isa_case(sh, lines, ('const', shard[1] + j), 'isa-const')
